@@ -117,6 +117,11 @@ impl RequestHandler<Rename> for RenameHandler {
             Some((DefinitionType::Symbol(_), def)) => def.location.as_ref().map(|l| l.span),
             _ => None,
         };
+        // (all of them: at a usage, only the copy that is used there is found at the position of the request)
+        let defs = match written_at {
+            Some(written_at) => codegen.analysis().symbols_written_at(written_at),
+            None => defs,
+        };
         // One and the same occurrence can stand for several symbols (a name in a macro body, per invocation): renaming
         // one of them would take the occurrence away from the others
         if let Some(written_at) = written_at {
